@@ -25,6 +25,8 @@ type gateCtl struct {
 	parked  []*parkedCall
 	rel     []int
 	rt      *scriptRT
+	onPark  func(node int, codes []int) // how a quiescent point is logged (default: into rt.trace)
+	onIdle  func() bool                 // quiescent with nothing parked: may wake a scenario-level waiter
 	quit    chan struct{}
 	stopped chan struct{}
 	points  int
@@ -94,6 +96,13 @@ func (g *gateCtl) loop() {
 		g.polls++
 		a := g.snapshot()
 		if len(a) == 0 {
+			if g.onIdle != nil {
+				if strict, _ := quiescent(buf); strict {
+					if strict2, _ := quiescent(buf); strict2 && len(g.snapshot()) == 0 && g.onIdle() {
+						continue
+					}
+				}
+			}
 			time.Sleep(20 * time.Microsecond)
 			continue
 		}
@@ -153,9 +162,13 @@ func (g *gateCtl) release(codes []int) {
 	g.parked = rest
 	g.points++
 	g.mu.Unlock()
-	g.rt.mu.Lock()
-	g.rt.trace = append(g.rt.trace, Event{Call: Call{K: "park", N: pick.node, Codes: codes}, Resp: rOk(vNil())})
-	g.rt.mu.Unlock()
+	if g.onPark != nil {
+		g.onPark(pick.node, codes)
+	} else {
+		g.rt.mu.Lock()
+		g.rt.trace = append(g.rt.trace, Event{Call: Call{K: "park", N: pick.node, Codes: codes}, Resp: rOk(vNil())})
+		g.rt.mu.Unlock()
+	}
 	close(pick.ch)
 }
 
@@ -192,9 +205,10 @@ func quiescent(buf []byte) (bool, string) {
 		ok := false
 		switch state {
 		case "chan receive":
-			ok = strings.Contains(body, "main.gateWait(") || strings.Contains(body, "main.(*gateCtl).stop(")
+			ok = strings.Contains(body, "main.gateWait(") || strings.Contains(body, "main.(*gateCtl).stop(") || strings.Contains(body, "main.runPoolGated(")
 		case "select":
-			ok = strings.Contains(body, "flyt.(*WorkerPool).worker(") || strings.Contains(body, "main.runEngine(")
+			ok = strings.Contains(body, "flyt.(*WorkerPool).worker(") || strings.Contains(body, "main.runEngine(") ||
+				strings.Contains(body, "main.runPoolGated(") || strings.Contains(body, "main.observeConfig(")
 		case "chan send":
 			ok = strings.Contains(body, "flyt.(*WorkerPool).Submit(")
 		case "semacquire", "sync.WaitGroup.Wait":
